@@ -60,6 +60,7 @@ type restoreOK struct {
 }
 
 type bootImage struct {
+	staleLog bool // the log predates the installed snapshot (see captureBootImageExcept)
 	term     uint64
 	hasTerm  bool
 	lastLog  uint64
@@ -346,6 +347,13 @@ func (o *Oracle) beforeDeleteRange(inc *Inc, min, max uint64) {
 	// the whole log lies strictly below the newest durable snapshot, which only an installed
 	// snapshot can produce, and the store cannot hold the gap
 	deferred := w.cfg.StoreFlavour != FlavourPlain && whole && d.last < snapIdx
+	if sn := d.newestSnap(); sn != nil && w.cfg.StoreFlavour != FlavourPlain && whole {
+		// ... or the log reaches the snapshot's index but holds another term there: it is the log from
+		// before the installed snapshot (the server stopped before clearing it)
+		if e, ok := d.ent(sn.Meta.Index); ok && e.Term != sn.Meta.Term {
+			deferred = true
+		}
+	}
 	switch {
 	case reset:
 		w.stats.probe("wholesale_log_reset")
